@@ -47,6 +47,8 @@ pub struct Case {
     #[serde(default)]
     pub max_steps: Option<usize>,
     #[serde(default)]
+    pub min_step: Option<f64>,
+    #[serde(default)]
     pub t_eval: Option<Vec<f64>>,
     #[serde(default)]
     pub dense: bool,
@@ -387,6 +389,7 @@ pub fn execute(case: &Case, instr: &Instr) -> Outcome {
             o.first_step = case.first_step;
             o.max_step = case.max_step;
             o.max_steps = case.max_steps;
+            o.min_step = case.min_step;
             o.t_eval = case.t_eval.clone();
             match solve_ivp(instr, case.x0, case.xend, &case.y0, o) {
                 Ok(s) => Outcome::Sol(s),
@@ -411,12 +414,12 @@ pub fn execute(case: &Case, instr: &Instr) -> Outcome {
                     .max_steps(ms.unwrap_or(100_000)).dense_output(!case.low_nodense).build()
                     .solve(instr, case.x0, &case.y0, case.xend, tol(&case.rtol), tol(&case.atol), Some(&mut so)),
                 "RADAU" => {
-                    let b = RADAU::builder().maybe_max_step(case.max_step).maybe_first_step(case.first_step)
+                    let b = RADAU::builder().maybe_max_step(case.max_step).maybe_min_step(case.min_step).maybe_first_step(case.first_step)
                         .max_steps(ms.unwrap_or(100_000)).jac_storage(storage(&case.jac_storage, n, bw)).dense_output(!case.low_nodense);
                     let s = if case.mass_storage == "default" { b.build() } else { b.mass_storage(storage(&case.mass_storage, n, bw)).build() };
                     s.solve(instr, case.x0, &case.y0, case.xend, tol(&case.rtol), tol(&case.atol), Some(&mut so))
                 }
-                _ => BDF::builder().maybe_max_step(case.max_step).maybe_first_step(case.first_step)
+                _ => BDF::builder().maybe_max_step(case.max_step).maybe_min_step(case.min_step).maybe_first_step(case.first_step)
                     .max_steps(ms.unwrap_or(100_000)).jac_storage(storage(&case.jac_storage, n, bw)).build()
                     .solve(instr, case.x0, &case.y0, case.xend, tol(&case.rtol), tol(&case.atol), Some(&mut so)),
             };
@@ -549,7 +552,17 @@ pub fn trace(case: &Case, instr: &Instr, out: &Outcome) -> Vec<Value> {
     // events
     let mut first_trial: Option<f64> = None;
     let mut n_plain_ode = 0usize;
-    let mut prev_cb_x: Option<f64> = None;
+    // contiguity of consecutive callbacks, computed over the complete log (before any elision)
+    let mut contig_of: Vec<bool> = vec![true; log.len()];
+    {
+        let mut px: Option<f64> = None;
+        for (i, e) in log.iter().enumerate() {
+            if let Ev::Cb { xold, x, .. } = e {
+                if let Some(p) = px { contig_of[i] = (xold - p).abs() <= ulps(p.abs().max(xold.abs()).max(scale), 8.0); }
+                px = Some(*x);
+            }
+        }
+    }
     // which events come after a modify_x2 callback (their states are mapped back by 2^-1)
     let x2_at: Option<usize> = case.script.iter().find(|s| s.action == "modify_x2").map(|s| s.k);
     let mut scaled_flags: Vec<bool> = Vec::with_capacity(log.len());
@@ -601,8 +614,7 @@ pub fn trace(case: &Case, instr: &Instr, out: &Outcome) -> Vec<Value> {
             Ev::Jac { t } => lines.push(json!({"e": "jac", "r": rk.rank(*t)})),
             Ev::Evt { t } => lines.push(json!({"e": "ev", "r": rk.rank(*t)})),
             Ev::Cb { k, xold, x, y, interp, ret } => {
-                let contig = match prev_cb_x { Some(px) => (xold - px).abs() <= ulps(px.abs().max(xold.abs()).max(scale), 8.0), None => true };
-                prev_cb_x = Some(*x);
+                let contig = contig_of[idx];
                 let ip = interp.as_ref().map(|f| json!({
                     "lo": tj(f.lo), "hi": tj(f.hi),
                     "b_ok": (f.lo - xold.min(*x)).abs() <= ulps(scale.max(f.lo.abs()), 8.0) && (f.hi - xold.max(*x)).abs() <= ulps(scale.max(f.hi.abs()), 8.0),
@@ -679,7 +691,9 @@ fn ret_line(case: &Case, s: &Solution, rk: &Ranker, fs_fact: Value, dir: f64, ti
         // behind the last step is still reported)
         span = json!({"lo": tj(a), "hi": tj(b), "hi_tol": rk.rank(b + dir * 1.5e-12)});
     }
-    let beyond_span = |t: f64| -> bool { match spanv { Some((_, b)) => dir * (t - b) > 0.0, None => false } };
+    // the 1e-12 slack zone only exists for a requested time reported just behind a premature stop
+    let slack_zone = case.t_eval.is_some() && s.status != Status::Success;
+    let beyond_span = |t: f64| -> bool { slack_zone && match spanv { Some((_, b)) => dir * (t - b) > 0.0, None => false } };
     for (i, t) in s.t.iter().enumerate() {
         let r = catch(|| s.sol(*t));
         match r {
@@ -720,9 +734,25 @@ fn ret_line(case: &Case, s: &Solution, rk: &Ranker, fs_fact: Value, dir: f64, ti
             let _ = dir;
             // sol_many over the stored times
             let inside: Vec<f64> = s.t.iter().copied().filter(|t| !beyond_span(*t)).collect();
-            match catch(|| s.sol_many(&inside)) {
-                Ok(Ok(v)) => { if v.len() != inside.len() { many_ok = false; } }
-                _ => { many_ok = false; }
+            let mut batches: Vec<Vec<f64>> = vec![inside.clone(), inside.iter().rev().copied().collect()];
+            // an unsorted batch incl. interior points
+            let mut mixed: Vec<f64> = Vec::new();
+            for i in 0..inside.len().saturating_sub(1) { mixed.push(0.5 * (inside[i] + inside[i + 1])); }
+            let m2: Vec<f64> = mixed.iter().rev().step_by(2).copied().chain(mixed.iter().step_by(3).copied()).collect();
+            batches.push(m2);
+            for bt in batches {
+                match catch(|| s.sol_many(&bt)) {
+                    Ok(Ok(v)) => {
+                        if v.len() != bt.len() { many_ok = false; }
+                        for (q, t) in bt.iter().enumerate() {
+                            match catch(|| s.sol(*t)) {
+                                Ok(Ok(one)) => { if one.len() != v[q].len() || one.iter().zip(v[q].iter()).any(|(a, b)| a.to_bits() != b.to_bits() && !(a.is_nan() && b.is_nan())) { many_ok = false; } }
+                                _ => { many_ok = false; }
+                            }
+                        }
+                    }
+                    _ => { many_ok = false; }
+                }
             }
         }
     }
